@@ -328,6 +328,10 @@ type hclCtx struct {
 	blocks    [][]string // rendered attributes of the locals blocks, in file order (2..5 blocks)
 	n         int
 	usedFns   map[string]int
+	// collection attributes that the block being printed does not have (the HCL struct of a plugin block is the union
+	// of the options of all types; a `*[]string` / `*map` field handed null becomes an EMPTY collection, not a nil
+	// pointer, and is written as a key the type does not know)
+	skipNull map[string]bool
 }
 
 func (c *hclCtx) local(expr string) string {
@@ -590,8 +594,29 @@ func (c *hclCtx) strMap(v *s.V) string {
 	}
 }
 
+// A field that is left out of the description: the locals variant sometimes writes the attribute all the same, with a
+// value that is null -- the literal, a local that is null, or a local that had a value in a block above and is set to
+// null below it (hcl.go: every field that can be left out is a pointer, a map or a slice: null leaves it nil).
+func (c *hclCtx) absent(b *strings.Builder, ind, key string) {
+	if !c.useLocals || c.r.Intn(4) != 0 {
+		return
+	}
+	if plainStringKeys[key] || c.skipNull[key] {
+		return
+	}
+	e := "null"
+	if c.r.Intn(4) != 0 {
+		e = c.local("null")
+	}
+	b.WriteString(ind + key + " = " + e + "\n")
+}
+
+// plain string fields of the HCL structs: they cannot be left out
+var plainStringKeys = map[string]bool{"method": true, "uri": true, "call": true, "payload": true, "type": true}
+
 func (c *hclCtx) attr(b *strings.Builder, ind, key string, v *s.V) {
 	if v == nil {
+		c.absent(b, ind, key)
 		return
 	}
 	var e string
@@ -629,11 +654,13 @@ func toHCL(v *s.V, useLocals bool, r *vh.Rand) string {
 	var b strings.Builder
 	for _, src := range listOf(v.Get("variable_sources")) {
 		fmt.Fprintf(&b, "variable_source %s %s {\n", label(src, "name"), label(src, "type"))
+		c.skipNull = map[string]bool{"fields": src.Get("type").S != "file/csv", "variables": src.Get("type").S != "variables"}
 		for _, k := range []string{"file", "fields", "ignore_first_line", "delimiter", "variables"} {
 			c.attr(&b, "  ", k, src.Get(k))
 		}
 		b.WriteString("}\n")
 	}
+	c.skipNull = nil
 	for _, req := range listOf(v.Get("requests")) {
 		fmt.Fprintf(&b, "request %s {\n", label(req, "name"))
 		for _, k := range []string{"method", "uri", "headers", "tag", "body"} {
@@ -646,6 +673,8 @@ func toHCL(v *s.V, useLocals bool, r *vh.Rand) string {
 		}
 		for _, p := range listOf(req.Get("postprocessors")) {
 			fmt.Fprintf(&b, "  postprocessor %s {\n", label(p, "type"))
+			isAssert := p.Get("type") != nil && p.Get("type").S == "assert/response"
+			c.skipNull = map[string]bool{"mapping": isAssert, "headers": !isAssert, "body": !isAssert}
 			for _, k := range []string{"mapping", "headers", "body", "status_code"} {
 				c.attr(&b, "    ", k, p.Get(k))
 			}
@@ -656,6 +685,7 @@ func toHCL(v *s.V, useLocals bool, r *vh.Rand) string {
 				b.WriteString("    }\n")
 			}
 			b.WriteString("  }\n")
+			c.skipNull = nil
 		}
 		if t := req.Get("templater"); t != nil {
 			b.WriteString("  templater {\n")
@@ -800,6 +830,11 @@ func genDesc(r *vh.Rand, size int) *s.V {
 			if r.Intn(3) != 0 {
 				pl := s.List()
 				for j, m := 0, r.Intn(4); j < m; j++ {
+					if r.Intn(40) == 0 {
+						// a processor nobody registered: refused by both front-ends
+						pl.L = append(pl.L, s.Map(s.KV{"type", s.Str("var/nosuch")}, s.KV{"mapping", strMap(r, 2)}))
+						continue
+					}
 					switch r.Intn(4) {
 					case 0:
 						pl.L = append(pl.L, s.Map(s.KV{"type", s.Str("var/header")}, s.KV{"mapping", strMap(r, 2)}))
@@ -863,7 +898,13 @@ func genDesc(r *vh.Rand, size int) *s.V {
 		l := s.List()
 		for i, n := 0, 1+r.Intn(size); i < n; i++ {
 			sc := s.Map(s.KV{"name", s.Str(name("scn", i))})
-			opt(r, sc, "weight", func() *s.V { return s.Int(int64(r.PickInt([]int{0, 1, 2, 7, 50}))) })
+			opt(r, sc, "weight", func() *s.V {
+				if r.Intn(10) == 0 {
+					// not a description at all: both front-ends have to refuse it
+					return s.Int([]int64{-1, -2, -50, -9223372036854775808}[r.Intn(4)])
+				}
+				return s.Int(int64(r.PickInt([]int{0, 1, 2, 7, 50})))
+			})
 			opt(r, sc, "min_waiting_time", func() *s.V { return s.Int(int64(r.PickInt([]int{0, 10, 1500}))) })
 			steps := s.List()
 			for j, m := 0, r.Intn(4); j < m && len(stepNames) > 0; j++ {
